@@ -1299,3 +1299,144 @@ func runStacked(w *rec.Writer, d caseDesc) {
 	q.markerID = []int{0, 1}
 	w.Case(d, rec.I(2), rec.I(max), q.v(), rec.LI(script), rec.L(outs...), rec.Bool(secondDone), rec.L(second...), rec.L(ws...), rec.I(hung))
 }
+
+// ---------------------------------------------------------------------------------------------
+// class D: admission into a shared iterator (storageItem.unwrap): what a request gets when it joins
+// an item whose producer is still running under ANOTHER request's context
+
+// gateReader behaves like BoundedTupleReader in front of a datastore: the read takes a while (the
+// gate), fails with the caller's context error if that context is dead, otherwise returns the
+// datastore's answer or error.
+type gateReader struct {
+	storage.RelationshipTupleReader
+	entered chan struct{}
+	gate    chan struct{}
+	openErr int
+	items   []*openfgav1.Tuple
+	iters   []*fakeIter
+	mu      sync.Mutex
+}
+
+func (g *gateReader) open(ctx context.Context) (storage.TupleIterator, error) {
+	g.entered <- struct{}{}
+	<-g.gate
+	if err := ctx.Err(); err != nil {
+		return nil, err
+	}
+	if g.openErr != 0 {
+		return nil, scriptErr(g.openErr)
+	}
+	it := newFakeIter(g.items, nil, false)
+	g.mu.Lock()
+	g.iters = append(g.iters, it)
+	g.mu.Unlock()
+	return it, nil
+}
+
+func (g *gateReader) Read(ctx context.Context, store string, f storage.ReadFilter, o storage.ReadOptions) (storage.TupleIterator, error) {
+	return g.open(ctx)
+}
+func (g *gateReader) ReadUsersetTuples(ctx context.Context, store string, f storage.ReadUsersetTuplesFilter, o storage.ReadUsersetTuplesOptions) (storage.TupleIterator, error) {
+	return g.open(ctx)
+}
+func (g *gateReader) ReadStartingWithUser(ctx context.Context, store string, f storage.ReadStartingWithUserFilter, o storage.ReadStartingWithUserOptions) (storage.TupleIterator, error) {
+	return g.open(ctx)
+}
+
+func countBlocked(frame string) int {
+	n := runtime.Stack(stackBuf, true)
+	c := 0
+	for _, g := range strings.Split(string(stackBuf[:n]), "\n\n") {
+		if strings.Contains(g, frame) && strings.Contains(g, "sync.(*Once).doSlow") && strings.Contains(g, "sync.(*Mutex).Lock") {
+			c++
+		}
+	}
+	return c
+}
+
+func runAdmission(w *rec.Writer, d caseDesc) {
+	r := rec.NewRand(mix(d.Seed, 4, d.Idx))
+	q := genQuery(r)
+	q.computeKeys()
+	q.items = genItems(r, q, false)
+	g := &gateReader{entered: make(chan struct{}, 16), gate: make(chan struct{}, 16), items: q.items}
+	if r.Chance(1, 4) {
+		g.openErr = rec.Pick(r, []int{1, 2, 3})
+	}
+	withCache := r.Bool()
+	var inner storage.RelationshipTupleReader = g
+	srvCtx, cancelSrv := context.WithCancel(context.Background())
+	defer cancelSrv()
+	if withCache {
+		inner = storagewrappers.NewCachedDatastore(srvCtx, g, newRecCache(), 100, time.Hour, &singleflight.Group{}, &sync.WaitGroup{})
+	}
+	ds := sharediterator.NewSharedIteratorDatastore(inner, sharediterator.NewSharedIteratorDatastoreStorage(),
+		sharediterator.WithMaxAdmissionTime(2*time.Millisecond), sharediterator.WithMaxIdleTime(time.Millisecond))
+
+	nreq := r.Range(1, 4)
+	creatorDead := r.Chance(1, 2) // the creator's context is cancelled while its read is in flight
+	type result struct {
+		it  storage.TupleIterator
+		err error
+	}
+	res := make([]chan result, nreq)
+	cancels := make([]context.CancelFunc, nreq)
+	base := countBlocked("storageItem).unwrap")
+	hung := 0
+	for i := 0; i < nreq; i++ {
+		ctx, cancel := context.WithCancel(context.Background())
+		cancels[i] = cancel
+		res[i] = make(chan result, 1)
+		go func(i int, ctx context.Context) {
+			it, err := q.open(ctx, ds, false)
+			res[i] <- result{it, err}
+		}(i, ctx)
+		if i == 0 {
+			select { // the creator is inside its producer
+			case <-g.entered:
+			case <-time.After(waitLimit):
+				hung = 1
+			}
+		} else {
+			deadline := time.Now().Add(waitLimit)
+			for countBlocked("storageItem).unwrap") < base+i {
+				if time.Now().After(deadline) {
+					hung = 1
+					break
+				}
+				runtime.Gosched()
+			}
+		}
+	}
+	if creatorDead {
+		cancels[0]()
+	}
+	g.gate <- struct{}{}
+	outs := make([]rec.V, nreq)
+	for i := 0; i < nreq; i++ {
+		select {
+		case x := <-res[i]:
+			outs[i] = rec.I(errClass(x.err))
+			if x.it != nil {
+				x.it.Stop()
+			}
+		case <-time.After(waitLimit):
+			outs[i] = rec.I(9)
+			hung = 1
+		}
+	}
+	for i := 0; i < 8; i++ { // nobody may stay blocked on the gate
+		select {
+		case g.gate <- struct{}{}:
+		default:
+		}
+	}
+	for _, c := range cancels {
+		c()
+	}
+	w.Stat("D.scenarios", 1)
+	if creatorDead && nreq > 1 {
+		w.Stat("D.joined_a_cancelled_creator", 1)
+	}
+	w.Case(d, rec.I(4), rec.I(nreq), rec.Bool(creatorDead), rec.I(g.openErr), rec.L(outs...), rec.I(hung))
+}
